@@ -1739,5 +1739,175 @@ theorem c02_tamper (K : Crypto) (header msg : Bytes) (s s' : MState)
 
 
 namespace ConvData
+
+/-! ### SMP state well-formedness -/
+
+/-- the stored SMP values each state relies on are present -/
+def SmpWF (c : Conv) : Prop :=
+  (c.smp.state = some .expect2 → c.smp.s1 ≠ none ∧ c.smp.secret ≠ none) ∧
+  (c.smp.state = some .expect3 → c.smp.s2 ≠ none) ∧
+  (c.smp.state = some .expect4 → c.smp.s1 ≠ none ∧ c.smp.s3 ≠ none)
+
+/-- symbolic execution of an `M` program under `wp` -/
+macro "wp_exec" : tactic => `(tactic| repeat' (first
+    | simp only [wp_bind, wp_getc, wp_modc, wp_ite', wp_pure, wp_throw, wp_ev, wp_goPanic, wp_now]
+    | refine ⟨fun _ => ?_, fun _ => ?_⟩
+    | (apply wp_randMPIs; intro _ _ hc _)
+    | (apply wp_randRead; intro _ _ hc _)
+    | split))
+
+theorem smpBody_wf (K : Crypto) (t : Tlv) (st : SmpState) (isGE : Nat → Bool) (s : MState)
+    (h : SmpWF s.conv) :
+    wp (smpBody K t st isGE) (fun _ s' => SmpWF s'.conv) (fun _ => True) s := by
+  unfold smpBody
+  simp only [setSmpState, smpEvent, smpEventQ, smpWipe, smpAbortWith, optNat, paramLen]
+  wp_exec
+  all_goals first
+    | trivial
+    | exact h
+    | (simp [SmpWF]; done)
+    | (simp_all [SmpWF]; done)
+    | skip
+
+/-- `processSMPTLV` preserves `SmpWF` (whatever the outcome: reply, abort, error) -/
+theorem processSMPTLV_wf (K : Crypto) (t : Tlv) (s : MState) (h : SmpWF s.conv) :
+    wp (processSMPTLV K t) (fun _ s' => SmpWF s'.conv) (fun _ => True) s := by
+  rw [processSMPTLV_eq]
+  simp only [setSmpState, smpIsGroupElement]
+  repeat' (first
+    | simp only [wp_bind, wp_getc, wp_modc, wp_ite', wp_pure, wp_throw, wp_ev, wp_goPanic]
+    | refine ⟨fun _ => ?_, fun _ => ?_⟩
+    | split)
+  all_goals first
+    | trivial
+    | exact smpBody_wf K t _ _ _ h
+    | (refine smpBody_wf K t _ _ _ ?_; simp_all [SmpWF]; done)
+    | skip
+
+theorem smpWipe_wf (s : MState) : wp smpWipe (fun _ s' => SmpWF s'.conv) (fun _ => True) s := by
+  simp [smpWipe, wp_modc, SmpWF]
+
+/-- sending a data message does not touch the SMP context -/
+theorem createSDM_smp (K : Crypto) (msg : Bytes) (flag : Nat) (tlvs : List Tlv) (s : MState) :
+    wp (createSerializedDataMessage K msg flag tlvs) (fun _ s' => s'.conv.smp = s.conv.smp) (fun _ => True) s := by
+  unfold createSerializedDataMessage
+  rw [wp_bind]
+  refine wp_mono _ _ _ _ _ _ (genDataMsgWithFlag_spec K _ _ _ s) ?_ (fun _ _ => trivial)
+  intro r s1 hg
+  cases r with
+  | error e => exact hg.2.2.1
+  | ok a =>
+    simp only [wrapMessageHeader, wp_bind, wp_pure]
+    refine wp_mono _ _ _ _ _ _ (messageHeader_frame _ s1) ?_ (fun _ _ => trivial)
+    intro r s2 ⟨hf, _⟩
+    have h2 : s2.conv.smp = s.conv.smp := by rw [hf]; exact hg.2.2.1
+    cases r with
+    | error e => exact h2
+    | ok hdr =>
+      simp only [updateLastSent, fragEncode]
+      wp_exec
+      all_goals first
+        | trivial
+        | exact h2
+        | skip
+
+
+theorem smpSecretFor_conv (K : Crypto) (ini : Bool) (secret : Bytes) (Q : Except Err Nat → MState → Prop) (s : MState)
+    (h : ∀ r, Q r s) : wp (smpSecretFor K ini secret) Q (fun _ => True) s := by
+  unfold smpSecretFor
+  wp_exec
+  all_goals first
+    | trivial
+    | exact h _
+
+theorem startAuthenticateExpect1_wf (K : Crypto) (question secret : Bytes) (s : MState) (h : SmpWF s.conv) :
+    wp (startAuthenticateExpect1 K question secret) (fun _ s' => SmpWF s'.conv) (fun _ => True) s := by
+  unfold startAuthenticateExpect1
+  simp only [wp_bind, wp_getc, wp_ite', wp_throw]
+  refine ⟨fun _ => h, fun _ => ?_⟩
+  apply smpSecretFor_conv
+  intro r
+  cases r with
+  | error e => exact h
+  | ok sec =>
+    simp only [paramLen]
+    wp_exec
+    all_goals first
+      | trivial
+      | (simp_all [SmpWF]; done)
+      | skip
+
+theorem createSDM_wf (K : Crypto) (msg : Bytes) (flag : Nat) (tlvs : List Tlv) (s : MState) (h : SmpWF s.conv) :
+    wp (createSerializedDataMessage K msg flag tlvs) (fun _ s' => SmpWF s'.conv) (fun _ => True) s := by
+  refine wp_mono _ _ _ _ _ _ (createSDM_smp K msg flag tlvs s) ?_ (fun _ h => h)
+  intro r s' hs
+  unfold SmpWF at *
+  rw [hs]; exact h
+
+/-- `StartAuthenticate` preserves `SmpWF` -/
+theorem startAuthenticate_wf (K : Crypto) (question secret : Bytes) (s : MState) (h : SmpWF s.conv) :
+    wp (startAuthenticate K question secret) (fun _ s' => SmpWF s'.conv) (fun _ => True) s := by
+  unfold startAuthenticate
+  simp only [wp_bind, wp_getc]
+  wp_exec
+  all_goals
+    refine wp_mono _ _ _ _ _ _ (startAuthenticateExpect1_wf K _ _ _ ?_) ?_ (fun _ h => h)
+    · first
+        | exact h
+        | (simp_all [SmpWF]; done)
+    · intro r s2 h2
+      cases r with
+      | error e => exact h2
+      | ok a =>
+        refine wp_mono _ _ _ _ _ _ (createSDM_wf K _ _ _ s2 h2) ?_ (fun _ h => h)
+        intro r s3 h3
+        cases r <;> exact h3
+
+/-- `continueSMP` (ProvideAuthenticationSecret) preserves `SmpWF` -/
+theorem continueSMP_wf (K : Crypto) (secret : Bytes) (s : MState) (h : SmpWF s.conv) :
+    wp (continueSMP K secret) (fun _ s' => SmpWF s'.conv) (fun _ => True) s := by
+  unfold continueSMP
+  simp only [wp_bind, wp_getc]
+  split
+  · simp only [wp_bind, wp_ite', wp_modc, wp_throw]
+    refine ⟨fun _ => by simp [SmpWF], fun _ => ?_⟩
+    apply smpSecretFor_conv
+    intro r
+    cases r with
+    | error e => exact h
+    | ok sec =>
+      simp only [paramLen, smpEvent]
+      wp_exec
+      all_goals first
+        | trivial
+        | (simp_all [SmpWF]; done)
+        | skip
+  · simp only [wp_bind, wp_modc, wp_throw]
+    simp [SmpWF]
+
+theorem provideAuthenticationSecret_wf (K : Crypto) (secret : Bytes) (s : MState) (h : SmpWF s.conv) :
+    wp (provideAuthenticationSecret K secret) (fun _ s' => SmpWF s'.conv) (fun _ => True) s := by
+  unfold provideAuthenticationSecret
+  rw [wp_bind]
+  refine wp_mono _ _ _ _ _ _ (continueSMP_wf K secret s h) ?_ (fun _ h => h)
+  intro r s2 h2
+  cases r with
+  | error e => exact h2
+  | ok a =>
+    simp only [wp_bind, wp_pure]
+    refine wp_mono _ _ _ _ _ _ (createSDM_wf K _ _ _ s2 h2) ?_ (fun _ h => h)
+    intro r s3 h3
+    cases r <;> exact h3
+
+/-- `abortAuthentication` preserves `SmpWF` -/
+theorem abortAuthentication_wf (K : Crypto) (s : MState) (h : SmpWF s.conv) :
+    wp (abortAuthentication K) (fun _ s' => SmpWF s'.conv) (fun _ => True) s := by
+  unfold abortAuthentication
+  simp only [wp_bind, wp_modc, wp_pure]
+  refine wp_mono _ _ _ _ _ _ (createSDM_wf K _ _ _ _ (by simp [SmpWF])) ?_ (fun _ h => h)
+  intro r s3 h3
+  cases r <;> exact h3
+
+
 end ConvData
 end Otr
